@@ -340,6 +340,12 @@ func checkC16(c *ev.Ctx) {
 		pp := lclp[r.Intn(len(lclp))]
 		cfg := lzma.Writer2Config{Properties: &lzma.Properties{LC: pp[0], LP: pp[1], PB: r.Intn(5)}, DictCap: dictCaps[r.Intn(len(dictCaps))],
 			BufSize: r.Pick(273, 4096, 65536), Matcher: lzma.MatchAlgorithm(r.Intn(2))}
+		if i%67 == 3 {
+			// the long single Write below is affordable only with the hash table matcher (the
+			// binary tree is quadratic on runs of equal bytes); must be decided before the
+			// writer is created
+			cfg.Matcher = lzma.HashTable4
+		}
 		sink := mon.NewSink()
 		var hist []string
 		var werr error
@@ -353,7 +359,6 @@ func checkC16(c *ev.Ctx) {
 			if i%67 == 3 {
 				// one Write: >= 64 KiB incompressible, then far more than 2 MiB highly compressible
 				ncalls = 0
-				cfg.Matcher = lzma.HashTable4
 				d := append(gen.Data(r, "random", r.Pick(66000, 68000, 80000)), make([]byte, 2<<20+300000)...)
 				if _, err := w.Write(d); err != nil {
 					werr = err
